@@ -12,8 +12,8 @@ package operations
 //@   at call append#3 assert [indexer-gets-the-record-as-it-reads-back-unwrapped] !hdrSealed[hdr] && has(hdr.PAXRecords, "STFS.Action")
 //@   property C12
 //@   at call append#2 assert [children-from-subtree-query] subtreeQueries == old(subtreeQueries) + 1
-//@   at call SignHeader#1 assert [delete-record-names] hdr.Name == headersToDelete[rangeindex + 1].Name && hdr.PAXRecords["STFS.Action"] == "DELETE" && hdr.Size == 0
-//@   at call SignHeader#1 assert [entries-are-addressed-by-their-own-name] headersToDelete[rangeindex + 1].Linkname == ""
+//@   at call SignHeader#1 assert [delete-record-names] hdr.Name == dbhdr.Name && hdr.PAXRecords["STFS.Action"] == "DELETE" && hdr.Size == 0
+//@   at call SignHeader#1 assert [entries-are-addressed-by-their-own-name] dbhdr.Linkname == ""
 //@   property C17
 //@   at call SignHeader#1 assert [pax-format] arg_hdr.Format == 4
 //@   property C02 also C12
@@ -43,18 +43,18 @@ package operations
 //@   property C01
 //@   at call append#3 assert [indexer-gets-the-record-as-it-reads-back-unwrapped] !hdrSealed[hdr] && has(hdr.PAXRecords, "STFS.Action")
 //@   property C17
-//@   at call Join#1 assert [new-names-independent-of-spelling] arg_elem[0] == to && arg_elem[1] == trimPrefix(trimPrefix(headersToMove[rangeindex + 1].Name, "/"), trimPrefix(from, "/"))
+//@   at call Join#1 assert [new-names-independent-of-spelling] arg_elem[0] == to && arg_elem[1] == trimPrefix(trimPrefix(dbhdr.Name, "/"), trimPrefix(from, "/"))
 //@   property C13
 //@   at call append#2 assert [whole-subtree-moves-with-its-directory] subtreeQueries == old(subtreeQueries) + 1
 //@   property C12
-//@   at call Join#1 assert [newname-formula] arg_elem[0] == to && arg_elem[1] == trimPrefix(trimPrefix(headersToMove[rangeindex + 1].Name, "/"), trimPrefix(from, "/"))
+//@   at call Join#1 assert [newname-formula] arg_elem[0] == to && arg_elem[1] == trimPrefix(trimPrefix(dbhdr.Name, "/"), trimPrefix(from, "/"))
 //@   at call append#2 assert [children-from-subtree-query] subtreeQueries == old(subtreeQueries) + 1
-//@   at call SignHeader#1 assert [move-record-names] hdr.PAXRecords["STFS.ReplacesName"] == headersToMove[rangeindex + 1].Name && hdr.PAXRecords["STFS.Action"] == "UPDATE" && hdr.Size == 0
-//@   at call SignHeader#1 assert [entries-are-addressed-by-their-own-name] headersToMove[rangeindex + 1].Linkname == ""
+//@   at call SignHeader#1 assert [move-record-names] hdr.PAXRecords["STFS.ReplacesName"] == dbhdr.Name && hdr.PAXRecords["STFS.Action"] == "UPDATE" && hdr.Size == 0
+//@   at call SignHeader#1 assert [entries-are-addressed-by-their-own-name] dbhdr.Linkname == ""
 //@   property C17
 //@   at call SignHeader#1 assert [pax-format] arg_hdr.Format == 4
 //@   property C02
-//@   at call Join#1 assert [children-keep-relative-names] arg_elem[0] == to && arg_elem[1] == trimPrefix(trimPrefix(headersToMove[rangeindex + 1].Name, "/"), trimPrefix(from, "/"))
+//@   at call Join#1 assert [children-keep-relative-names] arg_elem[0] == to && arg_elem[1] == trimPrefix(trimPrefix(dbhdr.Name, "/"), trimPrefix(from, "/"))
 //@   ghostset opMoves := old(opMoves) + 1
 //@   ensures [counted] opMoves == old(opMoves) + 1
 //@   property C05
